@@ -126,6 +126,10 @@ class Report:
         self._record(name, res, func, text)
         if res.verdict == smt.PROVED:
             return True
+        if getattr(self, "quiet", False):
+            # a scratch report (region of a recorded finding): only collect
+            (self.unknown if res.verdict == smt.UNKNOWN else self.failed).append(name)
+            return False
         if res.verdict == smt.UNKNOWN:
             self.unknown.append(name)
             print(f"UNDECIDED property={self.pid} obligation={name} "
@@ -189,6 +193,33 @@ class Report:
             return False
         with open(path) as f:
             return name in json.load(f).get(self.pid, [])
+
+    def fold_region(self, scratch, region, witness):
+        """`scratch` holds the obligations of a part of the input space where a
+        genuine defect is recorded (region predicate, DESIGN 3.2).  Proved
+        obligations count as discharged.  If anything in the region is not
+        proved, the finding's witness must reproduce on the real code; then the
+        whole region is one known finding (a failure with another obligation
+        name inside the same region is the same finding)."""
+        bad = []
+        for o in scratch.obligations:
+            if o["verdict"] == smt.PROVED:
+                self._record(o["name"], smt.Result(smt.PROVED, o["backend"], o["seconds"]), o["function"], "")
+            else:
+                bad.append(o)
+        self.canaries += scratch.canaries
+        self.broken += [b for b in scratch.broken if "no path reaches a normal return" not in b]
+        for k, v in scratch.functions.items():
+            self.functions.setdefault(k, v)
+        if not bad:
+            return
+        name = f"region[{region}]"
+        info = witness()
+        res = smt.Result(smt.REFUTED, bad[0]["backend"], sum(o["seconds"] for o in bad), None,
+                         "undischarged in this region: " + "; ".join(o["name"] for o in bad)[:1500])
+        self.obligation(name, res, func=bad[0]["function"],
+                        text="obligations of the region: " + ", ".join(o["name"] for o in bad)[:600],
+                        replay=lambda m: info)
 
     def canary(self, name, res):
         """a deliberately wrong clause: it must be refuted"""
